@@ -85,7 +85,7 @@ impl Property for C15 {
         "families: k-d tree queries (nearest, k nearest with k<=64, radius incl. 0 and radii equal to an exact inter-point distance) on 2D/3D clouds of 1-600 points (uniform, clustered, gridded with exact ties, with exact duplicates), optionally through an index-remapped partial tree over a random subset; Poisson-disk selection over random index subsets and visiting orders; mesh sampling (uniform with 40 000 draws on 4-12 face meshes of very unequal face area, dense, Poisson); convex hulls of clouds and of star polygons in both orientations with rotated start index and collinear boundary runs; ball pivoting (both directions, radius 0.6-3x mean spacing, with and without gap filling) on clouds in a 10x10 square. Oracle: brute force over all points / faces; 6.5 sigma binomial bounds for the unseedable uniform sampler. Non-trivial: n >= 50 with an exact tie or duplicate, or k >= 2; hull/pivot cases with >= 20 points. Distinct = distinct canonical JSON."
     }
     fn cases(t: Tier) -> u32 {
-        t.pick(30_000, 600_000)
+        t.pick(150_000, 600_000)
     }
     fn quiet_stdout() -> bool {
         true
